@@ -33,7 +33,7 @@ RULE = (
 )
 ASSUMPTIONS = ["helper parameters annotated Any (eq/ne/gt/ge/lt/le value, call_method args) are exercised as constants only"]
 FLOORS = {"bracketings_compared": (1500, 30000), "identity_checks": (400, 8000), "split_checks": (1500, 30000), "rshift_checks": (400, 8000),
-          "param_key_checks": (400, 8000), "reuse_checks": (300, 6000), "helper_cases": (170, 170), "helper_cases_with_option_argument": (70, 70), "helpers_covered": (60, 60), "helper_reapplications": (160, 160)}
+          "param_key_checks": (400, 8000), "reuse_checks": (300, 6000), "helper_cases": (170, 170), "helper_cases_with_option_argument": (70, 70), "helpers_covered": (60, 60), "helper_reapplications": (160, 160), "pipeline_history_steps": (3000, 60000)}
 SHARDS_QUICK = 2
 
 
@@ -472,7 +472,61 @@ STEP_NAMES = ["s_add", "s_two", "plain", "helper", "nested", "empty", "tuple", "
 OPTIONS = [{"Q": "q"}, {"AMOUNT": 5, "Q": 0, "S": {"P": 7}, "H": ("hh",), "K": 9}, {"AMOUNT": None, "S": {"P": "sp"}, "FN": _alt_fn}, {}, {"Q": 1, "K": "k", "FN": _alt_fn}]
 
 
+def pipeline_history(ctx, names, r, case):
+    """Step parameters are read from the options of EACH evaluation: one long-lived pipeline (and source >> pipeline)
+    over a hostile history - a dictionary equal to the previous one but differently typed, the same dictionary object
+    edited in place (nested and top level), a failing call (required parameter deleted in place) followed by the
+    completed same object.  Oracle: plain Python composition over a private copy, type-strict."""
+    table = make_steps()
+    pipe = Pipeline()
+    for n in names:
+        pipe = pipe + table[n][0]()
+    src = Option("X0", ("x",)) >> pipe
+    A = {"AMOUNT": 1, "Q": 0, "S": {"P": 1, "Z": [1]}, "K": 2, "N1": 0}
+    plan = [("first", lambda: A)]
+    twin = {"AMOUNT": True, "Q": False, "S": {"P": 1.0, "Z": [True]}, "K": 2.0, "N1": 0}
+    edits = [
+        ("equal-but-differently-typed", lambda: copy.deepcopy(twin)),
+        ("back-to-the-original-object", lambda: A),
+        ("same-object nested edit", lambda: (A["S"].__setitem__("P", r.choice([7, "sp", None])), A)[1]),
+        ("same-object top-level edit", lambda: (A.__setitem__("AMOUNT", r.choice([5, "am", 0.0])), A)[1]),
+        ("same-object delete Q", lambda: (A.pop("Q", None), A)[1]),
+        ("same-object restore Q", lambda: (A.__setitem__("Q", r.choice([0, "q", True])), A)[1]),
+        ("same-object nested list grows", lambda: (A["S"]["Z"].append(2), A)[1]),
+        ("same-object K edit", lambda: (A.__setitem__("K", r.choice([9, 2.0, True])), A)[1]),
+    ]
+    r.shuffle(edits)
+    plan += edits[: r.choice([4, 6, 8])]
+
+    def py(xx, o):
+        for n in names:
+            xx = table[n][1](xx, o)
+        return xx
+
+    trail = []
+    for label, make in plan:
+        obj = make()
+        snap = copy.deepcopy(obj)
+        trail.append([label, repr(snap)])
+        try:
+            exp = ("ok", canon(py(("x",), snap)))
+        except KeyError:
+            exp = ("err",)
+        for how, call in (("transform", lambda: pipe.transform(("x",), obj)), ("source >> pipeline", lambda: src.evaluate(obj))):
+            got = observe(call)
+            ctx.evaluations += 1
+            ctx.count("pipeline_history_steps")
+            if (got[0] == "ok") != (exp[0] == "ok") or (got[0] == "ok" and got != exp):
+                ctx.violation("parameters-not-read-at-evaluation", f"step {len(trail)} ({label}; {how}) of one long-lived pipeline {names}: {short(got)} but plain composition over that dictionary gives {short(exp)}",
+                              {"family": "pipeline-history", "steps": names, "case": case, "shard": ctx.shard, "shards": ctx.shards, "trail": trail[-3:]})
+                return
+    ctx.nontrivial(spec_hash(["pipeline-history", names, case]))
+
+
 def run(ctx):
+    for i in range(ctx.n(400, 8000)):
+        r = case_rng(ctx, ("hist", i))
+        pipeline_history(ctx, [r.choice(["s_add", "s_two", "plain", "nested", "raw_partial", "s_add", "s_two"]) for _ in range(r.choice([1, 2, 3]))], r, i)
     if ctx.shard == 0:
         helpers(ctx)
         read_at_evaluation_time(ctx)
@@ -494,7 +548,10 @@ def run(ctx):
 
 def replay(ctx, rep):
     w = rep["witness"]
-    if "steps" in w:
+    if w.get("family") == "pipeline-history":
+        ctx.shard, ctx.shards = w.get("shard", 0), w.get("shards", 1)
+        pipeline_history(ctx, w["steps"], case_rng(ctx, ("hist", w["case"])), w["case"])
+    elif "steps" in w:
         algebra_case(ctx, w["steps"], w["options"], (0,))
     else:
         helpers(ctx)
